@@ -141,38 +141,29 @@ func (h *Headers) Deserialize(frh *FrameHeader) error {
 }
 
 func (h *Headers) Serialize(frh *FrameHeader) {
-	if h.endStream {
-		frh.SetFlags(
-			frh.Flags().Add(FlagEndStream))
-	}
+	frh.SetFlags(frh.Flags().
+		with(FlagEndStream, h.endStream).
+		with(FlagEndHeaders, h.endHeaders).
+		with(FlagPriority, h.priority).
+		with(FlagPadded, h.hasPadding))
 
-	if h.endHeaders {
-		frh.SetFlags(
-			frh.Flags().Add(FlagEndHeaders))
-	}
+	// The priority section and the padding are added to what is written, not
+	// to the header block: a frame that is written twice carries the same
+	// block twice.
+	p := frh.payload[:0]
 
 	if h.priority {
-		frh.SetFlags(
-			frh.Flags().Add(FlagPriority))
-
-		// prepend stream and weight to rawHeaders
-		h.rawHeaders = append(h.rawHeaders, 0, 0, 0, 0, 0)
-		copy(h.rawHeaders[5:], h.rawHeaders)
-		http2utils.Uint32ToBytes(h.rawHeaders[0:4], h.stream)
-		h.rawHeaders[4] = h.weight
+		p = append(p, 0, 0, 0, 0, h.weight)
+		http2utils.Uint32ToBytes(p[0:4], h.stream)
 	}
+
+	p = append(p, h.rawHeaders...)
 
 	if h.hasPadding {
-		frh.SetFlags(
-			frh.Flags().Add(FlagPadded))
-		h.rawHeaders = http2utils.AddPadding(h.rawHeaders)
-	} else {
-		// A frame that was parsed keeps the flags it arrived with, and its
-		// padding has been cut: PADDED must not survive into what is written.
-		frh.SetFlags(frh.Flags() &^ FlagPadded)
+		p = http2utils.AddPadding(p)
 	}
 
-	frh.payload = append(frh.payload[:0], h.rawHeaders...)
+	frh.payload = p
 }
 
 // writeHeaderBlock writes the HEADERS frame fr, whose body is h, and continues
